@@ -3,13 +3,23 @@
    the abstract dump of the surviving store (None = torn beyond the abstraction) and whether the library
    recognises it (validate_structure and read_to_memory both succeed). *)
 From Geff Require Export Base Dtype Vlen Tree Validate Write Read.
+From Geff Require Export Dicts.
+From Geff Require Backends.
 Open Scope list_scope.
 
 (* IApiCrash: the same through geff.write (graph-library writer): api_write = the wrapper's guard, then write_arrays(overwrite=False)
    on the arrays the backend built (captured by the harness) *)
 Inductive input :=
   ICrash (k : skind) (pre : option znode) (g : wgraph) (md : smeta) (validate overwrite : bool)
-| IApiCrash (k : skind) (pre : option znode) (g : wgraph) (md : smeta) (validate overwrite : bool).
+| IApiCrash (k : skind) (pre : option znode) (g : wgraph) (md : smeta) (validate overwrite : bool)
+(* IDictsCrash: write_dicts itself, on the node / edge DICTIONARIES (Dicts.write_dicts: dict_props_to_arr, then write_arrays with its
+   default overwrite=False); INxCrash: geff.write(networkx graph, overwrite=...) on the dictionaries networkx reports, through
+   NxBackend.write behind the wrapper's guard -- no captured arrays.  nn / en: the property names in the order of the Python set
+   NxBackend.write builds (the order in which the properties are written shows in the crash states); names_ok checks that they are a
+   reordering of the names Backends.nx_write collects (Dicts.keys_of) *)
+| IDictsCrash (k : skind) (pre : option znode) (g : dgraph) (nn en : list string) (md : smeta)
+| INxCrash (k : skind) (pre : option znode) (directed : bool) (g : dgraph) (nn en : list string) (axes : option (list string))
+           (mdtok axtok : Z) (overwrite : bool).
 Inductive obs :=
   OCrash (r : res unit) (final : option znode) (survivors : list (option (option znode) * bool)).
 
@@ -23,8 +33,25 @@ Definition run_input (i : input) : st * res unit :=
   match i with
   | ICrash k pre g md v ov => write_arrays k g md v ov (init pre)
   | IApiCrash k pre g md v ov => api_write k g md v ov (init pre)
+  | IDictsCrash k pre g nn en md => write_dicts k g nn en md (init pre)
+  | INxCrash k pre d g nn en axes mdtok axtok ov =>
+      (do exists_ <- check_for_geff k;
+       (if exists_ then (if ov then delete_geff k else fail FileExistsError) else ret tt) ;;
+       bind (lift (Backends.fresh_md d axes mdtok axtok)) (fun md => write_dicts k g nn en md)) (init pre)
   end.
-Definition pre_of (i : input) : option znode := match i with ICrash _ pre _ _ _ _ | IApiCrash _ pre _ _ _ _ => pre end.
+Definition pre_of (i : input) : option znode :=
+  match i with
+  | ICrash _ pre _ _ _ _ | IApiCrash _ pre _ _ _ _ | IDictsCrash _ pre _ _ _ _ | INxCrash _ pre _ _ _ _ _ _ _ _ => pre
+  end.
+(* same names, each once *)
+Definition same_names (a b : list string) : bool :=
+  Nat.eqb (length a) (length b) && forallb (fun x => existsb (String.eqb x) b) a && forallb (fun x => existsb (String.eqb x) a) b
+  && Nat.eqb (length (dedup a)) (length a).
+Definition names_ok (i : input) : bool :=
+  match i with
+  | INxCrash _ _ _ g nn en _ _ _ _ => same_names nn (keys_of (map snd (d_nodes g))) && same_names en (keys_of (map snd (d_edges g)))
+  | _ => true
+  end.
 Definition diag (c : input * obs) : list bool :=
   match c with
   | (i, OCrash r final survivors) =>
@@ -33,7 +60,8 @@ Definition diag (c : input * obs) : list bool :=
       [ res_eqb unit_eqb r' r;
         otree_eqb (s_root s') final;
         forallb (fun dr => negb (snd dr) || same_state (fst dr) (s_root s') || same_state (fst dr) pre) survivors;
-        forallb (fun st => existsb (fun dr => same_state (fst dr) st) survivors || otree_eqb st final) (s_trace s') ]
+        forallb (fun st => existsb (fun dr => same_state (fst dr) st) survivors || otree_eqb st final) (s_trace s');
+        names_ok i ]
   end.
 Definition check (c : input * obs) : bool := forallb (fun b => b) (diag c).
 Definition model (i : input) : list (option znode) := s_trace (fst (run_input i)).
